@@ -349,6 +349,19 @@ def _run_scenario(spec, ctx):
             if rows != exp:
                 ctx.violation("rowcount", tag, f"{c['kind']}: {rows} rows for n={c['n']}, k={k} (expected {exp})")
                 continue
+        if c["param_cols"] and k and len(c.get("param_hist") or []) > 1:
+            # adaptive sampler called with parameter rows that changed between the calls: row j belongs to
+            # block j // n and carries that block's parameter row of this call or (a kept point) of an earlier one
+            pc = P.coordinates
+            n_ = c["n"] if c["n"] is not None else None
+            if n_ is not None:
+                for j in range(rows):
+                    i = j // n_
+                    if not any(all(torch.allclose(pc[v][j].double(), torch.tensor(h[v][i], dtype=torch.float64), atol=1e-6, rtol=0)
+                                   for v in prows) for h in c["param_hist"]):
+                        ctx.violation("pairing", tag + "|history", f"{c['kind']}: row {j} carries none of the parameter rows given for block {i}")
+                        break
+            continue
         if c["param_cols"] and k:
             pc = P.coordinates
             for v in prows:
